@@ -47,29 +47,52 @@ pub mod flexi_error {
         open spec fn from_spec(e: std::io::Error) -> FlexiLoggerError { FlexiLoggerError::OutputIo(e) }
     }
 }
+pub mod into_axioms {
+    use super::*;
+    use std::path::PathBuf;
+    /// oracle: the path an `Into<PathBuf>` argument converts to; `Into::into` is a function of its argument
+    pub uninterp spec fn into_path<P>(p: P) -> Seq<char>;
+    pub broadcast axiom fn ax_into_path<P: Into<PathBuf>>(p: P, r: PathBuf)
+        ensures #[trigger] call_ensures(<P as Into<PathBuf>>::into, (p,), r) ==> pathbuf_view(&r) == into_path::<P>(p);
+}
 pub mod shims {
     use super::*;
     use std::path::PathBuf;
+    use std::time::Duration;
     /// SHIM (R4) for the fn-pointer alias FormatFunction
     #[derive(Clone, Copy)]
     pub struct VFormatFn { _o: () }
     pub type FormatFunction = VFormatFn;
-    //@ opaque src/parameters/file_spec.rs struct FileSpec
-    //@   dropattr #[derive
+    /// SHIM for FileSpec: the `use_utc` flag the builder sets (field name as in the source), everything else opaque
+    pub struct FileSpecRest { _o: () }
+    pub struct FileSpec { pub use_utc: bool, pub rest: FileSpecRest }
     impl Clone for FileSpec { #[verifier::external_body] fn clone(&self) -> (r: FileSpec) ensures r == *self { unimplemented!() } }
     impl FileSpec {
         pub uninterp spec fn dir_spec(&self) -> Seq<char>;
+        /// unit `naming` (if_default_use_timestamp.post): an undecided file spec gets its time-stamp decision, nothing else changes
+        pub uninterp spec fn decided_spec(self, use_timestamp: bool) -> FileSpec;
         //@ sig src/parameters/file_spec.rs impl FileSpec / fn get_directory
         //@   ret r
         //@   ens pathbuf_view(&r) == self.dir_spec()
+        //@ sig src/parameters/file_spec.rs impl FileSpec / fn if_default_use_timestamp
+        //@   ens *final(self) == old(self).decided_spec(use_timestamp)
     }
-    /// SHIM: WriteMode as an opaque value with decidable equality (`==` is the derived PartialEq)
-    pub struct WriteMode { _o: () }
+    //@ item src/write_mode.rs enum WriteMode
+    //@   dropattr #[derive
     impl Clone for WriteMode { #[verifier::external_body] fn clone(&self) -> (r: WriteMode) ensures r == *self { unimplemented!() } }
     impl Copy for WriteMode {}
     impl PartialEq for WriteMode { #[verifier::external_body] fn eq(&self, o: &WriteMode) -> (r: bool) ensures r == (*self == *o) { unimplemented!() } }
-    pub struct RotationConfig { _o: () }
+    pub struct Criterion { _o: () }
+    pub struct Naming { _o: () }
+    pub struct Cleanup { _o: () }
+    //@ item src/writers/file_log_writer/config.rs struct RotationConfig
+    //@   dropattr #[derive
     impl Clone for RotationConfig { #[verifier::external_body] fn clone(&self) -> (r: RotationConfig) ensures r == *self { unimplemented!() } }
+    /// SHIM for the fn item `default_format` (the default value of the format function)
+    pub uninterp spec fn default_format_spec() -> VFormatFn;
+    #[allow(non_upper_case_globals)]
+    #[verifier::external_body]
+    pub exec const default_format: VFormatFn ensures default_format == default_format_spec() { VFormatFn { _o: () } }
     /// SHIM: the configuration record (all fields of the real struct)
     pub struct FileLogWriterConfig {
         pub print_message: bool, pub append: bool, pub write_mode: WriteMode, pub file_spec: FileSpec,
@@ -91,12 +114,17 @@ pub mod shims {
     }
     pub trait LogWriter {}
 }
+//@ item src/writers/file_log_writer.rs const WINDOWS_LINE_ENDING
+//@   bytesconst
+//@ item src/writers/file_log_writer.rs const UNIX_LINE_ENDING
+//@   bytesconst
 pub mod builder {
     use super::*;
     use super::flexi_error::FlexiLoggerError;
     use super::shims::*;
     use std::path::{Path, PathBuf};
-    broadcast use group_aspath, ax_aspath_str;
+    use super::into_axioms::*;
+    broadcast use group_aspath, ax_aspath_str, ax_into_path;
 
     type FormatFunction = VFormatFn;
     //@ item src/writers/file_log_writer/builder.rs struct FileLogWriterBuilder
@@ -113,9 +141,116 @@ pub mod builder {
             && st.config.line_ending == self.cfg_line_ending && st.config.write_mode == self.cfg_write_mode
             && st.config.file_spec == self.file_spec && st.config.use_utc == self.use_utc
             && (match (st.config.o_create_symlink, self.cfg_o_create_symlink) { (Some(a), Some(b)) => pathbuf_view(&a) == pathbuf_view(&b), (None, None) => true, _ => false })
-            && st.o_rot == self.o_rotation_config && st.bg == self.cleanup_in_background_thread
+            && st.o_rot == self.o_rotation_config && st.bg == self.effective_bg()
         }
+        /// C07: with an asynchronous writer (explicit capacities) the cleanup runs in the writer thread, not in a thread of its own
+        #[cfg(feature = "async")]
+        pub closed spec fn effective_bg(&self) -> bool { if self.cfg_write_mode is AsyncWith { false } else { self.cleanup_in_background_thread } }
+        #[cfg(not(feature = "async"))]
+        pub closed spec fn effective_bg(&self) -> bool { self.cleanup_in_background_thread }
         pub closed spec fn fmt(&self) -> VFormatFn { self.format }
+        /// the plain settings as a tuple: (print message, append, write mode, line ending, format, ceiling, background cleanup, utc)
+        pub closed spec fn settings(&self) -> (bool, bool, WriteMode, Seq<u8>, VFormatFn, log::LevelFilter, bool, bool) {
+            (self.cfg_print_message, self.cfg_append, self.cfg_write_mode, self.cfg_line_ending@, self.format, self.max_log_level, self.cleanup_in_background_thread, self.use_utc)
+        }
+        /// file spec, rotation and symlink: what the plain setters must leave alone
+        pub closed spec fn others(&self) -> (FileSpec, Option<RotationConfig>, Option<Seq<char>>) {
+            (self.file_spec, self.o_rotation_config, match self.cfg_o_create_symlink { Some(p) => Some(pathbuf_view(&p)), None => None })
+        }
+    //@ fn src/writers/file_log_writer/builder.rs impl FileLogWriterBuilder / fn print_message
+    //@   ret r
+    //@   props C16
+    //@   rule R10b 1
+    //@   ens[FileLogWriterBuilder::print_message.post] r.settings() == (true, self.settings().1, self.settings().2, self.settings().3, self.settings().4, self.settings().5, self.settings().6, self.settings().7) && r.others() == self.others()
+    //@ fn src/writers/file_log_writer/builder.rs impl FileLogWriterBuilder / fn append
+    //@   ret r
+    //@   props C06,C08
+    //@   rule R10b 1
+    //@   ens[FileLogWriterBuilder::append.post] r.settings() == (self.settings().0, true, self.settings().2, self.settings().3, self.settings().4, self.settings().5, self.settings().6, self.settings().7) && r.others() == self.others()
+    //@ fn src/writers/file_log_writer/builder.rs impl FileLogWriterBuilder / fn write_mode
+    //@   ret r
+    //@   props C15
+    //@   rule R10b 1
+    //@   ens[FileLogWriterBuilder::write_mode.post] r.settings() == (self.settings().0, self.settings().1, write_mode, self.settings().3, self.settings().4, self.settings().5, self.settings().6, self.settings().7) && r.others() == self.others()
+    //@ fn src/writers/file_log_writer/builder.rs impl FileLogWriterBuilder / fn use_windows_line_ending
+    //@   ret r
+    //@   props C20
+    //@   rule R10b 1
+    //@   ens[FileLogWriterBuilder::use_windows_line_ending.post] r.settings() == (self.settings().0, self.settings().1, self.settings().2, super::WINDOWS_LINE_ENDING_spec(), self.settings().4, self.settings().5, self.settings().6, self.settings().7) && r.others() == self.others()
+    //@ fn src/writers/file_log_writer/builder.rs impl FileLogWriterBuilder / fn max_level
+    //@   ret r
+    //@   props C13
+    //@   rule R10b 1
+    //@   ens[FileLogWriterBuilder::max_level.post] r.settings() == (self.settings().0, self.settings().1, self.settings().2, self.settings().3, self.settings().4, max_log_level, self.settings().6, self.settings().7) && r.others() == self.others()
+    //@ fn src/writers/file_log_writer/builder.rs impl FileLogWriterBuilder / fn cleanup_in_background_thread
+    //@   ret r
+    //@   props C07
+    //@   rule R10b 1
+    //@   ens[FileLogWriterBuilder::cleanup_in_background_thread.post] r.settings() == (self.settings().0, self.settings().1, self.settings().2, self.settings().3, self.settings().4, self.settings().5, use_background_thread, self.settings().7) && r.others() == self.others()
+    //@ fn src/writers/file_log_writer/builder.rs impl FileLogWriterBuilder / fn o_print_message
+    //@   ret r
+    //@   props C16
+    //@   rule R10b 1
+    //@   ens[FileLogWriterBuilder::o_print_message.post] r.settings() == (print_message, self.settings().1, self.settings().2, self.settings().3, self.settings().4, self.settings().5, self.settings().6, self.settings().7) && r.others() == self.others()
+    //@ fn src/writers/file_log_writer/builder.rs impl FileLogWriterBuilder / fn o_append
+    //@   ret r
+    //@   props C06
+    //@   rule R10b 1
+    //@   ens[FileLogWriterBuilder::o_append.post] r.settings() == (self.settings().0, append, self.settings().2, self.settings().3, self.settings().4, self.settings().5, self.settings().6, self.settings().7) && r.others() == self.others()
+        pub closed spec fn the_file_spec(&self) -> FileSpec { self.file_spec }
+        pub closed spec fn rotation(&self) -> Option<RotationConfig> { self.o_rotation_config }
+        pub closed spec fn symlink(&self) -> Option<Seq<char>> { self.others().2 }
+        pub closed spec fn rot_of(criterion: Criterion, naming: Naming, cleanup: Cleanup) -> RotationConfig { RotationConfig { criterion, naming, cleanup } }
+        /// the defaults of a new builder: nothing printed, no append, direct writing, LF, default format, no ceiling, background cleanup, local time
+    //@ fn src/writers/file_log_writer/builder.rs impl FileLogWriterBuilder / fn new
+    //@   ret r
+    //@   props C20,C15,C13,C06,C10
+    //@   ens[FileLogWriterBuilder::new.post] r.settings() == (false, false, WriteMode::Direct, super::UNIX_LINE_ENDING_spec(), default_format_spec(), log::LevelFilter::Trace, true, false)
+    //@   ens[FileLogWriterBuilder::new.post.others] r.the_file_spec() == file_spec && r.rotation() is None && r.symlink() is None
+    }
+    impl FileLogWriter {
+    //@ fn src/writers/file_log_writer.rs impl FileLogWriter / fn builder
+    //@   ret r
+    //@   props C20,C15,C13,C06,C10
+    //@   ens[FileLogWriter::builder.post] r.settings() == (false, false, WriteMode::Direct, super::UNIX_LINE_ENDING_spec(), default_format_spec(), log::LevelFilter::Trace, true, false) && r.the_file_spec() == file_spec && r.rotation() is None && r.symlink() is None
+    }
+    impl FileLogWriterBuilder {
+        /// C16 / C06: with rotation the file names carry no start time unless the file spec asked for one
+    //@ fn src/writers/file_log_writer/builder.rs impl FileLogWriterBuilder / fn rotate
+    //@   ret r
+    //@   props C16,C06,C07
+    //@   rule R10b 1
+    //@   ens[FileLogWriterBuilder::rotate.post] r.rotation() == Some(Self::rot_of(criterion, naming, cleanup)) && r.the_file_spec() == self.the_file_spec().decided_spec(false)
+    //@   ens[FileLogWriterBuilder::rotate.post.frame] r.settings() == self.settings() && r.symlink() == self.symlink()
+    //@ fn src/writers/file_log_writer/builder.rs impl FileLogWriterBuilder / fn o_rotate
+    //@   ret r
+    //@   props C16,C06,C07
+    //@   rule R10b 1
+    //@   ens[FileLogWriterBuilder::o_rotate.post] match rotate_config { Some((c, n, cl)) => r.rotation() == Some(Self::rot_of(c, n, cl)) && r.the_file_spec() == self.the_file_spec().decided_spec(false), None => r.rotation() is None && r.the_file_spec() == self.the_file_spec().decided_spec(true) }
+    //@   ens[FileLogWriterBuilder::o_rotate.post.frame] r.settings() == self.settings() && r.symlink() == self.symlink()
+    //@ fn src/writers/file_log_writer/builder.rs impl FileLogWriterBuilder / fn file_spec
+    //@   ret r
+    //@   props C16,C06
+    //@   rule R10b 1
+    //@   ens[FileLogWriterBuilder::file_spec.post] r.the_file_spec() == (if self.rotation() is Some { file_spec.decided_spec(false) } else { file_spec })
+    //@   ens[FileLogWriterBuilder::file_spec.post.frame] r.settings() == self.settings() && r.rotation() == self.rotation() && r.symlink() == self.symlink()
+    //@ fn src/writers/file_log_writer/builder.rs impl FileLogWriterBuilder / fn create_symlink
+    //@   ret r
+    //@   props C16
+    //@   rule R10b 1
+    //@   ens[FileLogWriterBuilder::create_symlink.post] r.symlink() == Some(into_path::<P>(symlink)) && r.settings() == self.settings() && r.the_file_spec() == self.the_file_spec() && r.rotation() == self.rotation()
+    //@ fn src/writers/file_log_writer/builder.rs impl FileLogWriterBuilder / fn o_create_symlink
+    //@   ret r
+    //@   props C16
+    //@   rule R10b 1
+    //@   rule R19p 1
+    //@   ens[FileLogWriterBuilder::o_create_symlink.post] r.symlink() == (match symlink { Some(p) => Some(into_path::<S>(p)), None => None }) && r.settings() == self.settings() && r.the_file_spec() == self.the_file_spec() && r.rotation() == self.rotation()
+    //@ fn src/writers/file_log_writer/builder.rs impl FileLogWriterBuilder / fn use_utc
+    //@   ret r
+    //@   props C09,C20
+    //@   rule R10b 1
+    //@   ens[FileLogWriterBuilder::use_utc.post] r.settings() == (self.settings().0, self.settings().1, self.settings().2, self.settings().3, self.settings().4, self.settings().5, self.settings().6, true) && r.the_file_spec() == (FileSpec { use_utc: true, ..self.the_file_spec() })
+    //@   ens[FileLogWriterBuilder::use_utc.post.frame] r.rotation() == self.rotation() && r.symlink() == self.symlink()
         pub closed spec fn ceiling(&self) -> log::LevelFilter { self.max_log_level }
     //@ fn src/writers/file_log_writer/builder.rs impl FileLogWriterBuilder / fn format
     //@   ret r
@@ -142,7 +277,7 @@ pub mod builder {
     //@   ens r == self.ts_format_check()
     //@ fn src/writers/file_log_writer/builder.rs impl FileLogWriterBuilder / fn try_build_state
     //@   ret r
-    //@   props C16,C18,C06,C10
+    //@   props C16,C18,C06,C10,C07
     //@   ens[try_build_state.post.format_checked] r is Ok ==> self.ts_format_check() is Ok
     //@   ens[try_build_state.post.dir] r is Ok ==> fs_create_dir_all_result(effective_dir(self.dir())) is Ok
     //@       && fs_metadata_result(effective_dir(self.dir())) is Ok && metadata_is_dir(&fs_metadata_result(effective_dir(self.dir()))->Ok_0)
